@@ -21,7 +21,11 @@ Inductive value :=
 | VGoFloat (s : list Z)                   (* a Go float64, by its shortest decimal spelling *)
 | VNilPtr                                 (* typed nil pointer *)
 | VCtx                                    (* the context.Context of the evaluation *)
-| VOpaque (tag : Z).                      (* any other non-nil Go value *)
+| VOpaque (tag : Z)                       (* any other non-nil Go value *)
+| VStruct (id : Z) (fs : list (list Z * value)).
+   (* a Go struct value of type number id, by the fields a selector can read: the exported fields, promoted fields
+      of embedded structs included; an unexported or missing name is absent.  Everywhere but under a selector it
+      behaves like VOpaque *)
 
 Inductive gotype :=
 | TIface | TString | TBool | TInt (k : gokind) | TFloat (is32 : bool) | TDec | TTime
